@@ -805,7 +805,7 @@ static void cfg_init_defaults(cfg_t *cfg)
 					cfg_scan_fp_begin(fp);
 
 					do {
-						ret = cfg_parse_internal(cfg, 1, xstate, &cfg->opts[i]);
+						ret = cfg_parse_internal(cfg, 0, xstate, &cfg->opts[i]);
 						xstate = -1;
 					} while (ret == STATE_CONTINUE);
 
@@ -1390,7 +1390,8 @@ static int cfg_parse_internal(cfg_t *cfg, int level, int force_state, cfg_opt_t 
 			continue;
 
 		if (tok == EOF) {
-			if (state != 0) {
+			if (state != 0 || level != 0) {
+				/* in the middle of an item, or a section was never closed */
 				cfg_error(cfg, _("premature end of file"));
 				goto error;
 			}
